@@ -1,7 +1,15 @@
 SPECIFICATION Spec
-INVARIANT Inv
+INVARIANT I_MutexOwnership
+INVARIANT I_MutexExclusion
+INVARIANT I_SemConservation
+INVARIANT I_CvConsistency
+INVARIANT I_BarrierGroups
+INVARIANT I_PhaseConsistency
+INVARIANT I_CommExactlyOnce
 INVARIANT PrintOutcomes
 PROPERTY ClockMonotone
 PROPERTY MutexFifoHandoff
 PROPERTY SemFifo
 PROPERTY CvFifo
+PROPERTY MailboxFifo
+PROPERTY MessFifo
